@@ -324,7 +324,7 @@ def regEvents : List Event := [.connect 1 (str "h"), .line 1 (str "NICK a")]
 
 set_option maxRecDepth 100000 in
 example : (step exCfg (run exCfg regEvents) (.line 1 (str "USER a 0 * :A"))).outs.length = 18 ∧
-    (1, str ":irc.irc 372 a :Hello, world!") ∈
+    (1, (str ":irc.irc " ++ Reply.RplMotd372 (client := str "a") (motd := str "Hello, world!"))) ∈
       (step exCfg (run exCfg regEvents) (.line 1 (str "USER a 0 * :A"))).outs := by decide
 
 example : ∀ o ∈ (step exCfg (run exCfg regEvents) (.line 1 (str "USER a 0 * :A"))).outs,
@@ -349,7 +349,7 @@ theorem motd_needs_clean :
     ¬ Clean (str ":irc.irc 372 a :two\nlines") ∧
     ¬ OneLine (onWire (str ":irc.irc 372 a :two\nlines")) ∧
     splitOnChar '\n' (onWire (str ":irc.irc 372 a :two\nlines")) =
-      [str ":irc.irc 372 a :two", str "lines\r", []] := by
+      [(str ":irc.irc " ++ Reply.RplMotd372 (client := str "a") (motd := str "two")), str "lines\r", []] := by
   refine ⟨by decide, by decide, by decide, ?_, by decide⟩
   rw [oneLine_iff_clean]; decide
 
